@@ -239,6 +239,11 @@ def check(run, replay=None):
         return
     run.extra['explanation'] = __doc__
     jobs = [('SCAN', 0), ('BENCH', 0), ('CLOCK', 0)]
+    lm = B.layout_mismatch(run.prog, B.SEARCH_LAYOUT)
+    if lm:
+        # the scan of the call graph does not depend on the data layout; the two executed steps do
+        run.inconclusive.append('BENCH and CLOCK skipped, data layout differs from what the harness encodes: %s' % ', '.join(lm))
+        jobs = [('SCAN', 0)]
     run.bounds.append('CLOCK: arbitrary search state, arbitrary depth / node limits, no time-based limit; BENCH: all positions of bench::FENS; SCAN: whole reachable call graph')
     run.outside += ['separate processes / machine load as such', 'hash iteration order inside std (not reachable: checked by SCAN)']
     run.stubs |= {'abstract game', 'clock: fresh non-decreasing values', 'bench: from_fen and Search::search summarised'}
